@@ -514,6 +514,7 @@ def oracle(hist, rmodes, impl, lacts=None):
     bad = []
     lacts = {int(k): v for k, v in (lacts or {}).items()}
     wanted, registered, cutoff, live = set(), set(), False, False
+    asked = set()
     unobs = unobservable(lacts)
 
     def delivered(ev):
@@ -597,6 +598,22 @@ def oracle(hist, rmodes, impl, lacts=None):
             cutoff = True
         if lost_here or (k == "CD"):
             live = False
+        # what the accessory has been asked to notify on the CURRENT session, from the requests it answered
+        if o["sess"]:
+            asked.clear()
+        for ev, ids, kind, _sid in o["puts"]:
+            if kind in ("o", "s"):
+                if ev:
+                    asked.update(tuple(c) for c in ids)
+                else:
+                    asked.difference_update(tuple(c) for c in ids)
+        # C12, first sentence, at every quiescent point of a live session (not only right after a reconnect): unless a
+        # subscribe request was ever cut off, everything the caller is subscribed to has been asked for on THIS session
+        if k in ("S", "U", "SW", "CU") and o["connected"] and not cutoff and not wanted <= asked:
+            bad.append(("session:subscribed-but-not-asked",
+                        f"the session is up and no subscribe request was ever cut off, the caller is subscribed to "
+                        f"{sorted(wanted)}, but on this session the accessory has only been asked to notify {sorted(asked)}",
+                        idx))
     return bad
 
 
